@@ -234,9 +234,9 @@ def obligations(tier):
     out = []
     ticks = 3 if tier == "quick" else 4
     for kind in ("update", "change"):
-        out.append(Ob("%s/V5-two-shares/t%d" % (kind, ticks), h5, dict(kind=kind, ticks=ticks, post=(tier != "quick")), budget=900 if tier == "quick" else 3000,
+        out.append(Ob("%s/V5-two-shares/t3" % kind, h5, dict(kind=kind, ticks=3, post=(tier != "quick")), budget=900 if tier == "quick" else 3000,
                       covers=["write-s", "write-s2", "taken-on-s2", "re-entered"],
-                      bounds=dict(ticks=ticks, values="[0,2]", guards="[0,1]", writes="before the run" + (" and after it" if tier != "quick" else ""))))
+                      bounds=dict(ticks=3, values="[0,2]", guards="[0,1]", writes="before the run" + (" and after it" if tier != "quick" else ""))))
     for kind in ("update", "change"):
         for variant in ("V1", "V2", "V3", "V4"):
             out.append(Ob("%s/%s/t%d" % (kind, variant, ticks), h, dict(variant=variant, kind=kind, ticks=ticks),
